@@ -72,8 +72,7 @@ pub fn run(repo: &str, t: &mut T) {
         let (k, c) = (unhex(key), unhex(ct));
         t.check(name, aenc(&k, &pt) == c && adec(&k, &c) == pt);
     }
-    // RFC 5794 A.1 also lists the round-key-independent intermediate: check generated S-boxes against the RFC's
-    // printed table corners (2.4.2): SB1[0]=63 SB1[ff]=16, SB2[0..4]=e2 4e 54 fc, SB3[0]=52 SB3[ff]=7d, SB4[0]=30 SB4[ff]=60
+    // generated S-boxes (algebraic definition) against spot values of the tables printed in RFC 5794 2.4.2: SB1[0]=63 SB1[ff]=16, SB2[0..4]=e2 4e 54 fc, SB3[0]=52 SB3[ff]=7d, SB4[0]=30 SB4[ff]=60
     t.check(
         "aria generated sboxes",
         aria::SB1[0] == 0x63
